@@ -30,6 +30,7 @@ import (
 	"sort"
 	"strings"
 	"sync"
+	"syscall"
 	"time"
 
 	"github.com/pdfcpu/pdfcpu/pkg/api"
@@ -120,6 +121,56 @@ func partA(r *vh.Run) {
 				}
 			}
 		}
+	}
+}
+
+// in-process: readSeekerFromStdin behind streamInOutForOperation("-", "-") on a stdin that
+// delivers the data chunks and then (code 0) fails
+func stdinCopyCases(r *vh.Run) {
+	realStdin, realStdout := os.Stdin, os.Stdout
+	defer func() { os.Stdin, os.Stdout = realStdin, realStdout; log.SetCLILogger(nil) }()
+	for ci, codes := range [][]int{{0}, {1, 0}, {9, 0}, {300, 0}, {300, 700, 0}, {5000, 0}, {300}, {300, 700}, {}} {
+		dir := filepath.Join(scratch, fmt.Sprintf("s%d", ci))
+		must(os.MkdirAll(dir, 0o755))
+		total, faulty := 0, false
+		for _, c := range codes {
+			if c == 0 {
+				faulty = true
+			} else {
+				total += c
+			}
+		}
+		data := bytes.Repeat([]byte("A"), total)
+		var in *os.File
+		var err error
+		if faulty {
+			in, err = faultyStdin(data)
+			must(err)
+		} else {
+			must(os.WriteFile(filepath.Join(dir, "stdin.bin"), data, 0o644))
+			in, err = os.Open(filepath.Join(dir, "stdin.bin"))
+			must(err)
+		}
+		capF, err := os.Create(filepath.Join(dir, "stdout.bin"))
+		must(err)
+		os.Stdin, os.Stdout = in, capF
+		restore := cli.VerifSetTemporaryInputHooks(func(d, pattern string) (*os.File, error) { return os.CreateTemp(dir, pattern) }, nil)
+		rs, _, fin, perr := cli.VerifStreamInOutForOperation("-", "-", "op")
+		res := ""
+		if perr != nil {
+			res = nlist([]int{errClass(perr), 0})
+		} else {
+			b, _ := io.ReadAll(rs)
+			res = nlist([]int{0, len(b)})
+			fin(nil)
+		}
+		restore()
+		os.Stdin, os.Stdout = realStdin, realStdout
+		in.Close()
+		capF.Close()
+		r.Case("stdincopy", []string{nlist(codes)}, res)
+		r.Count("A:stdincopy")
+		os.RemoveAll(dir)
 	}
 }
 
@@ -1647,6 +1698,178 @@ func runSelCmd(sc selCmd, sel string, idx int, cfg string) *outcome {
 	return o
 }
 
+// ------------------------------------------------------------------ part E: stdin read faults
+
+// faultyStdin returns a file (one end of an AF_UNIX stream socket pair) from which exactly
+// `prefix` can be read and whose next read fails with ECONNRESET: the peer is closed while it
+// still has unread data in its own receive queue.
+func faultyStdin(prefix []byte) (*os.File, error) {
+	if len(prefix) > 60000 {
+		return nil, errors.New("prefix too large for the socket buffer")
+	}
+	fds, err := syscall.Socketpair(syscall.AF_UNIX, syscall.SOCK_STREAM|syscall.SOCK_CLOEXEC, 0)
+	if err != nil {
+		return nil, err
+	}
+	// unread byte in the peer's queue -> closing the peer resets the connection
+	if _, err := syscall.Write(fds[0], []byte{0}); err != nil {
+		return nil, err
+	}
+	for off := 0; off < len(prefix); {
+		n, err := syscall.Write(fds[1], prefix[off:])
+		if err != nil {
+			return nil, err
+		}
+		off += n
+	}
+	if err := syscall.Close(fds[1]); err != nil {
+		return nil, err
+	}
+	return os.NewFile(uintptr(fds[0]), "faulty-stdin"), nil
+}
+
+// a PDF with two revisions written by hand (classic xref tables): revision 1 alone is a valid
+// one-page document, the whole file has two pages.  Returns the bytes and the length of revision 1.
+func twoRevisionPDF() ([]byte, int) {
+	var b bytes.Buffer
+	off := map[int]int{}
+	obj := func(nr int, body string) {
+		off[nr] = b.Len()
+		fmt.Fprintf(&b, "%d 0 obj\n%s\nendobj\n", nr, body)
+	}
+	b.WriteString("%PDF-1.7\n%\xe2\xe3\xcf\xd3\n")
+	content := "0 0 1 rg 10 10 50 50 re f"
+	obj(1, "<< /Type /Catalog /Pages 2 0 R >>")
+	obj(2, "<< /Type /Pages /Kids [3 0 R] /Count 1 >>")
+	obj(3, "<< /Type /Page /Parent 2 0 R /MediaBox [0 0 200 200] /Contents 4 0 R /Resources << >> >>")
+	obj(4, fmt.Sprintf("<< /Length %d >>\nstream\n%s\nendstream", len(content), content))
+	x1 := b.Len()
+	b.WriteString("xref\n0 5\n0000000000 65535 f \n")
+	for i := 1; i <= 4; i++ {
+		fmt.Fprintf(&b, "%010d 00000 n \n", off[i])
+	}
+	fmt.Fprintf(&b, "trailer\n<< /Size 5 /Root 1 0 R >>\nstartxref\n%d\n%%%%EOF\n", x1)
+	rev1 := b.Len()
+	obj(2, "<< /Type /Pages /Kids [3 0 R 5 0 R] /Count 2 >>")
+	obj(5, "<< /Type /Page /Parent 2 0 R /MediaBox [0 0 300 300] /Contents 4 0 R /Resources << >> >>")
+	x2 := b.Len()
+	fmt.Fprintf(&b, "xref\n0 1\n0000000000 65535 f \n2 1\n%010d 00000 n \n5 1\n%010d 00000 n \n", off[2], off[5])
+	fmt.Fprintf(&b, "trailer\n<< /Size 6 /Root 1 0 R /Prev %d >>\nstartxref\n%d\n%%%%EOF\n", x1, x2)
+	return b.Bytes(), rev1
+}
+
+func runBinStdinFile(cfgHome, dir string, stdin *os.File, args ...string) runRes {
+	cmd := exec.Command(bin, args...)
+	cmd.Dir = dir
+	cmd.Env = []string{"HOME=" + cfgHome, "XDG_CONFIG_HOME=" + filepath.Join(cfgHome, ".config"), "PATH=/usr/bin:/bin", "GOMAXPROCS=2", "TMPDIR=" + filepath.Join(dir, "tmp")}
+	os.MkdirAll(filepath.Join(dir, "tmp"), 0o755)
+	cmd.Stdin = stdin
+	var so, se bytes.Buffer
+	cmd.Stdout, cmd.Stderr = &so, &se
+	err := cmd.Start()
+	stdin.Close()
+	if err != nil {
+		return runRes{exit: -1, err: err}
+	}
+	done := make(chan error, 1)
+	go func() { done <- cmd.Wait() }()
+	select {
+	case err = <-done:
+	case <-time.After(120 * time.Second):
+		cmd.Process.Kill()
+		return runRes{exit: -2, stdout: so.Bytes(), stderr: se.Bytes(), err: errors.New("timeout")}
+	}
+	code := 0
+	if err != nil {
+		var ee *exec.ExitError
+		if errors.As(err, &ee) {
+			code = ee.ExitCode()
+		} else {
+			code = -1
+		}
+	}
+	return runRes{exit: code, stdout: so.Bytes(), stderr: se.Bytes()}
+}
+
+// one recipe x every fault point: stdin delivers doc[:k] and then fails
+func runFaults(rec recipe, idx int, cfg string, doc []byte, rev1 int) []*outcome {
+	var outs []*outcome
+	points := []struct {
+		label string
+		k     int
+	}{{"0", 0}, {"1", 1}, {"header", 9}, {"end-of-revision-1", rev1}, {"len-1", len(doc) - 1}}
+	for pi, pt := range points {
+		o := &outcome{rec: recipe{name: "fault-" + rec.name, args: rec.args}, variant: "stdin-fails-after-" + pt.label}
+		outs = append(outs, o)
+		dir := filepath.Join(scratch, fmt.Sprintf("f%d-%d", idx, pi))
+		prepDir(dir, rec, doc)
+		must(os.MkdirAll(filepath.Join(dir, "sd"), 0o755))
+		var a []string
+		outFile := ""
+		switch rec.kind {
+		case "pdf":
+			if pi%2 == 0 {
+				a = subst(rec.args, "-", "-", "", "")
+			} else {
+				a, outFile = subst(rec.args, "-", "fault-out.pdf", "", ""), "fault-out.pdf"
+			}
+		case "pdf1":
+			a = subst(rec.args, "-", "", "-", "")
+		case "jsonout":
+			a = subst(rec.args, "-", "", "", "-")
+		case "jsonfile":
+			a, outFile = subst(rec.args, "-", "", "", "fault-out.json"), "fault-out.json"
+		case "dir":
+			a = subst(rec.args, "-", "", "sd", "")
+		default:
+			a = subst(rec.args, "-", "", "", "")
+		}
+		in, err := faultyStdin(doc[:pt.k])
+		must(err)
+		sr := runBinStdinFile(cfg, dir, in, a...)
+		input := fmt.Sprintf("pdfcpu %s   with stdin = first %d of %d bytes of a two-revision PDF (revision 1 ends at %d), then read(2) fails with ECONNRESET", strings.Join(a, " "), pt.k, len(doc), rev1)
+		fail := func(class, detail string) { o.fails = append(o.fails, [3]string{class, input, trunc(detail, 400)}) }
+		o.cases = append(o.cases, [3]string{"exit", "false", fmt.Sprintf("%x", sr.exit)})
+		bad := false
+		switch {
+		case sr.exit == 0:
+			fail("stdin-read-error-exit-zero:"+rec.name+":after-"+pt.label, fmt.Sprintf("stdout %d bytes; stderr: %s", len(sr.stdout), trunc(string(sr.stderr), 200)))
+			bad = true
+		case sr.exit != 1:
+			fail("stdin-read-error-exit-not-1:"+rec.name, fmt.Sprintf("exit %d %s", sr.exit, trunc(string(sr.stderr), 300)))
+			bad = true
+		}
+		if len(sr.stdout) != 0 {
+			fail("stdin-read-error-stdout-not-empty:"+rec.name+":after-"+pt.label, trunc(string(sr.stdout), 100))
+			bad = true
+		}
+		if sr.exit != 0 && len(bytes.TrimSpace(sr.stderr)) == 0 {
+			fail("stdin-read-error-no-message:"+rec.name, "")
+			bad = true
+		}
+		if outFile != "" {
+			if _, err := os.Stat(filepath.Join(dir, outFile)); err == nil {
+				fail("stdin-read-error-leaves-output-file:"+rec.name+":after-"+pt.label, outFile)
+				bad = true
+			}
+		}
+		if ents, _ := os.ReadDir(filepath.Join(dir, "sd")); len(ents) != 0 {
+			fail("stdin-read-error-writes-output:"+rec.name+":after-"+pt.label, ents[0].Name())
+			bad = true
+		}
+		if ents, _ := os.ReadDir(filepath.Join(dir, "tmp")); len(ents) != 0 {
+			fail("temporary-stdin-copy-left-behind:fault-"+rec.name, ents[0].Name())
+			bad = true
+		}
+		if !bad {
+			o.ok()
+		}
+		o.counters = append(o.counters, "E:after-"+pt.label)
+		os.RemoveAll(dir)
+	}
+	return outs
+}
+
 func firstDiff(a, b string) string {
 	n := len(a)
 	if len(b) < n {
@@ -1687,6 +1910,7 @@ func main() {
 	defer os.RemoveAll(scratch)
 
 	partA(r)
+	stdinCopyCases(r)
 
 	// exit-status model cases
 	r.Case("exit", []string{"true"}, "0")
@@ -1827,6 +2051,47 @@ func main() {
 			djobs = append(djobs, func() *outcome { return runSelCmd(sc, sel, k, cfg) })
 		}
 	}
+	// part E: stdin read faults
+	faultDoc, rev1 := twoRevisionPDF()
+	if n, err := api.PageCount(bytes.NewReader(faultDoc), model.NewDefaultConfiguration()); err != nil || n != 2 {
+		fmt.Fprintf(os.Stderr, "two-revision fixture: %v pages=%d\n", err, n)
+		r.Finish()
+		os.RemoveAll(scratch)
+		os.Exit(3)
+	}
+	if n, err := api.PageCount(bytes.NewReader(faultDoc[:rev1]), model.NewDefaultConfiguration()); err != nil || n != 1 {
+		fmt.Fprintf(os.Stderr, "two-revision fixture, revision 1: %v pages=%d\n", err, n)
+		r.Finish()
+		os.RemoveAll(scratch)
+		os.Exit(3)
+	}
+	// sanity of the demonstration: the prefix alone is processed fine (exit 0, one page)
+	if pr := runBin(cfg, scratch, faultDoc[:rev1], "optimize", "-", "-"); pr.exit != 0 {
+		r.Count("E:prefix-not-processable-by-optimize")
+	} else {
+		r.Count("E:prefix-processable-by-optimize")
+	}
+	faultQuick := map[string]bool{"optimize": true, "trim": true, "info": true, "info-json": true, "validate": true, "extract-page-stdout": true, "extract-pages": true, "merge-nobookmarks": true}
+	eresults := make([][]*outcome, len(recs))
+	for i := range recs {
+		if recs[i].in == "" || (!thorough && !faultQuick[recs[i].name]) {
+			continue
+		}
+		wg.Add(1)
+		go func(i int) {
+			defer wg.Done()
+			sem <- struct{}{}
+			defer func() { <-sem }()
+			defer func() {
+				if p := recover(); p != nil {
+					o := &outcome{rec: recipe{name: "fault-" + recs[i].name}, variant: "harness"}
+					o.fail("harness-panic:fault-"+recs[i].name, fmt.Sprint(p))
+					eresults[i] = append(eresults[i], o)
+				}
+			}()
+			eresults[i] = runFaults(recs[i], i, cfg, faultDoc, rev1)
+		}(i)
+	}
 	dresults := make([]*outcome, len(djobs))
 	for i := range djobs {
 		wg.Add(1)
@@ -1846,6 +2111,7 @@ func main() {
 	}
 	wg.Wait()
 	results = append(results, mresults...)
+	results = append(results, eresults...)
 	for _, o := range dresults {
 		if o != nil {
 			o.counters = append(o.counters, "D:"+o.rec.name)
